@@ -466,6 +466,8 @@ class PVLParser(object):
 
         try:
             self.parse_around_equals(tokens)
+        except LexerError:
+            raise
         except ValueError:
             tokens.throw(
                 ValueError, f'Expecting an equals sign after "{begin}" '
@@ -521,6 +523,8 @@ class PVLParser(object):
 
         try:
             self.parse_around_equals(tokens)
+        except LexerError:
+            raise
         except (ParseError, ValueError):  # No equals statement, which is fine.
             self.parse_statement_delimiter(tokens)
             return None
@@ -610,6 +614,8 @@ class PVLParser(object):
 
         try:
             self.parse_around_equals(tokens)
+        except LexerError:
+            raise
         except ValueError as err:
             # The Parameter Name has already been consumed, so this is
             # not a first-token mismatch that the caller can recover from.
@@ -788,6 +794,8 @@ class PVLParser(object):
             value = self.decoder.decode_simple_value(t)
             # Remembered for OmniParser.parse_module_post_hook()
             self._simple_value = (t, value)
+        except LexerError:
+            raise
         except ValueError:
             tokens.send(t)
             for p in (
@@ -820,6 +828,8 @@ class PVLParser(object):
         self.parse_WSC_until(None, tokens)
         try:
             return self.parse_units(value, tokens)
+        except LexerError:
+            raise
         except (ValueError, StopIteration):
             return value
 
